@@ -874,11 +874,18 @@ class C17(Check):
                     f"{self.seed}:{self.k}".encode()).hexdigest()[:8]
 
         tempfile._name_sequence = _Names(case["seed"])
-        if case.get("unprivileged") and os.geteuid() == 0:
+        if case.get("unprivileged"):
             # the rest of this history runs as an ordinary user: file
-            # permissions apply (the harness itself runs as root, for which
-            # every existing file is writable)
-            self._become_ordinary_user(sb)
+            # permissions apply (the harness itself usually runs as root, for
+            # which every existing file is writable)
+            if os.geteuid() == 0:
+                try:
+                    self._become_ordinary_user(sb)
+                except HarnessError:
+                    # capabilities cannot be dropped here: write-protected
+                    # targets then behave like ordinary ones (less coverage,
+                    # nothing wrong)
+                    res.stats["ordinary_user_unavailable"] += 1
             res.stats["probe.history_as_ordinary_user"] += 1
         # evo's own settings are loaded already; from here on "~" is the
         # sandbox, so a literal "~/name" output path names a sandbox file
